@@ -40,6 +40,10 @@ CHECKS = {
   "held on all first-segment strings up to the bound (exhaustive) for injectivity of the automatic name, and on the generated tag documents for precedence, sharing, titles and rejection of undeclared tags",
   "trusts the verif-tagged accessors to the real name/title functions; precedence reference is 10 lines written from the statement",
   "runtime monitoring: execution vs reference model (precedence) and exhaustive collision search over the real naming function"),
+ "C06": ("exploration",
+  "held on every sequence of directive kinds up to the length bound with every placement of one parenthesis pair / lone parenthesis (exhaustive under the bound) and on random longer sequences: the real directive tree and rejection class equal those of a reference walk written from the statement; also after MACRO/PASTE expansion",
+  "trusts the repository's public admissibility table (tested cell by cell by its own suite) and the verif-tagged tree accessors",
+  "runtime monitoring: execution vs a small executable reference model over hooked state (directive trees), bounded-exhaustive enumeration"),
 }
 
 def main():
